@@ -64,10 +64,14 @@ def judge_c07(ctx, L, t, cc, enc, data, how=""):
     ctx.count(f"strict:{so['kind']}")
     if how:
         ctx.count(f"how:{how}")
+    pl = payload_of(t, cc, enc, data)
     if so["kind"] in ("crash", "runaway"):
+        if w.outcome["kind"] == "ok" and not w.warnings:
+            # "if warn mode emits no warning, strict mode accepts" - whatever strict mode did instead of accepting
+            ctx.problem(f"C07:silent-warn:{so['kind']}", f"warn mode decodes the input completely without any warning, but strict mode does not accept it: {_b(so)}; {describe(t, cc, enc, data)}", pl)
+            return False
         ctx.count("skipped:strict-internal-error(C06)")
         return True
-    pl = payload_of(t, cc, enc, data)
     first = w.warnings[0] if w.warnings else None
     if so["kind"] == "ok":
         if first is not None:
